@@ -4,13 +4,16 @@ P = {
     "id": "C04",
     "coq_targets": ["Properties/C04.vo", "Run/Eval_C04.vo"],
     "theorems_module": "Properties.C04",
-    "theorems": ["C04_execute_iff_spec", "C04_first_success_wins", "C04_later_only_if_all_earlier_nocreds_or_optin",
+    "theorems": ["C04_execute_iff_spec", "C04_tried_in_configured_order", "C04_first_success_wins",
+                 "C04_later_only_if_all_earlier_nocreds_or_optin",
                  "C04_rejected_without_optin_fails_even_if_later_accepts", "C04_rejected_without_optin_exact",
-                 "C04_index_test_vacuous", "C04_classify_T_sound", "C04_anonymous_unauthorized_fixed",
-                 "C04_typed_rejected_blocks", "C04_nonvacuous"],
+                 "C04_no_credentials_iff_none_presented", "C04_kindless_never_no_credentials", "C04_fallback_only_if_opted_in",
+                 "C04_typed_later_only_if", "C04_typed_first_success", "C04_typed_rejected_blocks", "C04_named_rejections_block"],
     "streams": [{
         "name": "chains", "pkg": "./internal/rules", "test": "TestVerifC04",
-        "overlay": {"internal/rules/zz_verif_c04_test.go": "c04/c04_test.go"},
+        "overlay": {"internal/rules/zz_verif_c04_test.go": "c04/c04_test.go",
+                    "internal/handler/decision/zz_verif_export.go": "export/decision_export.go",
+                    "internal/handler/envoyextauth/grpcv3/zz_verif_export.go": "export/grpcv3_export.go"},
         "eval_module": "Run.Eval_C04", "check_term": "check",
         "n_quick": 4000, "n_thorough": 60000, "findings": {},
     }],
